@@ -20,7 +20,7 @@
 From Coq Require Import List ZArith NArith Bool.
 From Jade Require Import Base.
 From Jade Require Cancel CancelProofs.
-From Jade Require System SystemMonitors SystemTheorems SystemFault SystemComplete SystemOutcome.
+From Jade Require System SystemMonitors SystemTheorems SystemFault SystemComplete SystemOutcome SystemAcyclic.
 From Jade.Props Require SysExamples.
 Import ListNotations.
 
@@ -95,3 +95,21 @@ Theorem c03_final_results_independent : forall sc1 sc2 tra1 p1 res1 miss1 trb1 s
   miss1 = [] /\ miss2 = [] /\ (forall r, In r res1 <-> In r res2).
 Proof. exact SystemOutcome.final_results_independent. Qed.
 Print Assumptions c03_final_results_independent.
+
+(* every hypothesis of the completeness theorem is executable: the check evaluates acyclicb, nodes_okb, fault_free and
+   the acceptor on every impl trace of its fault-free modes and re-reads the conclusion from the trace *)
+Theorem c03_acyclicb_sound : forall sc, SystemFault.acyclicb sc = true -> SystemComplete.acyclic sc.
+Proof. exact SystemAcyclic.acyclicb_sound. Qed.
+Print Assumptions c03_acyclicb_sound.
+
+Theorem c03_complete_when_checked : forall sc tr1 p res miss tr2 s,
+  (SystemFault.acyclicb sc && SystemFault.nodes_okb sc)%bool = true ->
+  System.run sc (tr1 ++ System.ESummary p res miss :: tr2) = Some s ->
+  SystemFault.fault_free sc System.init (tr1 ++ System.ESummary p res miss :: tr2) = true ->
+  miss = [] /\ forall j, In j (System.all_jobs sc) -> In j (System.row_names res).
+Proof. exact SystemAcyclic.complete_no_missing_checked. Qed.
+Print Assumptions c03_complete_when_checked.
+
+Example c03_checked_nonvacuous :
+  (SystemFault.acyclicb SysExamples.ex_sc && SystemFault.nodes_okb SysExamples.ex_sc)%bool = true.
+Proof. vm_compute. reflexivity. Qed.
